@@ -5,6 +5,7 @@
 // already normal.
 #include "gen.hpp"
 #include "parse_common.hpp"
+#include "pathenum.hpp"
 
 using namespace vf;
 
@@ -179,4 +180,23 @@ static std::string selftest() {
   return "";
 }
 
-const Harness vf::HARNESS = {"C08", gen, check, nullptr, selftest};
+// every text of the bounded path domain (bases, references, absolute URIs), all 64 masks, both ownerships
+static Verdict enumerate(int tier, int shard, int nshards, Fields *failing) {
+  static std::vector<std::string> texts = [&]() {
+    PathDomain d = path_domain(1);  // cheap enough for the larger domain in both tiers
+    (void)tier;
+    std::vector<std::string> v = d.bases;
+    v.insert(v.end(), d.refs.begin(), d.refs.end());
+    v.insert(v.end(), d.abss.begin(), d.abss.end());
+    std::sort(v.begin(), v.end());
+    v.erase(std::unique(v.begin(), v.end()), v.end());
+    return v;
+  }();
+  return enum_drive(texts.size(), shard, nshards, check, [&](uint64_t i) {
+    Fields f;
+    f.set("text", texts[(size_t)i]); f.seti("mm", (long long)(i & 1));
+    return f;
+  }, failing);
+}
+
+const Harness vf::HARNESS = {"C08", gen, check, enumerate, selftest};
